@@ -114,6 +114,8 @@ func run(c *fw.Ctx) {
 		}
 	})
 	c.Cases("lostfile", c.N(96, 1440), func(i int, r *fw.Rand) { runLostFile(c, i, r) })
+	c.Cases("capchange", c.N(80, 1200), func(i int, r *fw.Rand) { runCapChange(c, i, r) })
+	c.Cases("overtake", c.N(90, 900), func(i int, r *fw.Rand) { runOvertake(c, i, r) })
 }
 
 var weights = c07.Weights{Add: 56, Get: 5, Latest: 3, List: 2, Seen: 4, Remove: 21, Purge: 5, Visit: 4}
